@@ -14,7 +14,7 @@ from .. import seams
 from ..compile import World
 from ..ctx import CTX, RunTooBig
 from ..history import History, canon, canon_outcome, digest, same
-from ..rng import Streams, chance, pick, weighted
+from ..rng import Streams, chance, pick, weighted, steps
 from ..sim import apply_op, form_of, build_sim, locations, preload, readable, stack_state, watch_spirals
 from ..world import gen_chain_world, gen_inputs, gen_request, gen_situation, gen_world, wide_knob
 from . import Result
@@ -84,7 +84,7 @@ def generate(seed: int, tier: str) -> dict:
     if tier == "thorough" and len(pool) <= 4 and chance(orr, 0.3):
         mode = "perms"
     actors = "ABC"[: orr.randint(2, 3)]
-    n_steps = orr.randint(len(pool), 12 if tier == "quick" else 20)
+    n_steps = steps(orr, len(pool), 12 if tier == "quick" else 20)
     order = [{"actor": pick(orr, actors), "req": orr.randrange(len(pool))} for _ in range(n_steps)]
     return {
         "format": 1,
